@@ -186,9 +186,9 @@ def preimage_real_transforms(verdict, tier, seed):
             dict(affine_transform=True, bounded_to_unbounded=True, bounded_transform="probit", periodic_parameters=["b"]),
             # preconditioning="flow": a trained flow (VerifFlow through the entry point) as the transform
             dict(flow="verifflow", affine_transform=False, bounded_to_unbounded=True, bounded_transform="logit")]
-    if tier != "quick":
-        cfgs.append(dict(flow="zuko", affine_transform=True, bounded_to_unbounded=True, bounded_transform="probit",
-                         flow_kwargs={"hidden_features": [8]}, fit_kwargs={"n_epochs": 1, "batch_size": 32}))
+    # a real (zuko) flow as the preconditioning map, in every sample namespace
+    cfgs.append(dict(flow="zuko", affine_transform=True, bounded_to_unbounded=True, bounded_transform="probit",
+                     flow_kwargs={"hidden_features": [8]}, fit_kwargs={"n_epochs": 1, "batch_size": 32}))
     nss = ["numpy", "torch", "jax"]
     for ns in nss:
         xp = smcdrv.get_xp(ns)
@@ -225,12 +225,40 @@ def preimage_real_transforms(verdict, tier, seed):
                 else:
                     tr = CompositeTransform(parameters=params, prior_bounds=bounds, xp=xp, dtype="float64", **cf)
                 xfit = np.stack([rng.uniform(-2.5, 4.5, 64), rng.uniform(0.1, 1.9, 64)], axis=1)
-                zfit = tr.fit(xp.asarray(xfit))
-                z = smcdrv.to_np(zfit)[:16] + 0.01
-                x_ref, j_ref = tr.inverse(xp.asarray(z))
+                try:
+                    zfit = tr.fit(xp.asarray(xfit))
+                    z = np.asarray(smcdrv.to_np(zfit), dtype=np.float64)[:16] + 0.01
+                    x_ref, j_ref = tr.inverse(xp.asarray(z))
+                except Exception as ex:
+                    verdict.violation(f"NeverRaises|preconditioning-map|{'flow:' + cf['flow'] if cf.get('flow') else 'composite'}|{ns}|{type(ex).__name__}",
+                                      f"fitting / inverting the preconditioning map {cf} with samples in the {ns} namespace raised {type(ex).__name__}: {str(ex)[:140]}",
+                                      {"builder": "preimage", "params": {"ns": ns, "cfg": ci, "beta": beta}})
+                    continue
                 x_ref = np.asarray(smcdrv.to_np(x_ref), dtype=np.float64)
                 j_ref = np.asarray(smcdrv.to_np(j_ref), dtype=np.float64)
                 scen = {"builder": "preimage", "params": {"ns": ns, "cfg": ci, "beta": beta}}
+                # the Jacobian term the kernels' target contains is log|det dx/dz| of the map actually
+                # applied: checked against central finite differences of inverse() itself
+                if beta == 1.0:
+                    zz = np.asarray(z, dtype=np.float64)
+                    cols = []
+                    okp = np.ones(len(zz), dtype=bool)
+                    for kdim in range(zz.shape[1]):
+                        h = 1e-5 * (1.0 + np.abs(zz[:, kdim]))
+                        zp, zm = zz.copy(), zz.copy()
+                        zp[:, kdim] += h; zm[:, kdim] -= h
+                        xpv = np.asarray(smcdrv.to_np(tr.inverse(xp.asarray(zp))[0]), dtype=np.float64)
+                        xmv = np.asarray(smcdrv.to_np(tr.inverse(xp.asarray(zm))[0]), dtype=np.float64)
+                        okp &= (np.abs(xpv - xmv).max(-1) < 0.5)          # a periodic wrap between the two probes
+                        cols.append((xpv - xmv) / (2 * h)[:, None])
+                    Jm = np.stack(cols, axis=2)                               # [point, i, k] = dx_i / dz_k
+                    sign, logdet = np.linalg.slogdet(Jm)
+                    okp &= np.isfinite(logdet) & (sign != 0)
+                    if okp.any() and not np.allclose(logdet[okp], j_ref[okp], rtol=0, atol=2e-5 * (1 + np.abs(j_ref[okp]).max())):
+                        verdict.violation(f"JacobianIncluded|map|{'flow:' + cf['flow'] if cf.get('flow') else 'composite'}|{ns}",
+                                          f"the log-Jacobian reported by the preconditioning map's inverse() is not log|det dx/dz| of that map "
+                                          f"(finite differences; max diff {np.max(np.abs(logdet[okp] - j_ref[okp])):.3g}) for transform cfg {cf}", scen)
+                    n_eval += int(okp.sum())
                 for cls, C in (("MiniPCNSMC", MiniPCNSMC), ("MiniPCN", MiniPCN)):
                     for k in seen:
                         seen[k].clear()
